@@ -130,3 +130,26 @@ Proof.
   replace (u1 * u1 + z0 * z0 + u2 * u2) with (u1 * u1 + u2 * u2 + z0 * z0) by ring.
   unfold u1, u2. rewrite (plane_rot _ _ x0 y0 H1). reflexivity.
 Qed.
+
+(* The 2 arcsec clause itself, for the generated body against the rotation Meeus prescribes
+   (same polynomials with T = 0): distance between the two images of a unit vector, in radians
+   (2 arcsec = 9.7e-6 rad).  Refuted at t = 3, T = -13 (epoch 1000, equinox 2300) on the x axis. *)
+Definition img (t tt x0 y0 z0 : R) : R * R * R :=
+  let ze := rad (zeta_c t tt / 3600) in let zz := rad (z_c t tt / 3600) in
+  let th := rad (theta_c t tt / 3600) in
+  (rot_x ze zz th x0 y0 z0, rot_y ze zz th x0 y0 z0, rot_z ze zz th x0 y0 z0).
+Definition dist2 (p q : R * R * R) : R :=
+  let '(a, b, c) := p in let '(a', b', c') := q in
+  (a - a') * (a - a') + (b - b') * (b - b') + (c - c') * (c - c').
+Definition equinox_frame_full : Prop :=
+  forall t tt x0 y0 z0, -3 <= t <= 3 -> -13 <= tt <= 13 -> x0 * x0 + y0 * y0 + z0 * z0 = 1 ->
+    dist2 (img t tt x0 y0 z0) (img t 0 x0 y0 z0) <= (97 / 10000000) * (97 / 10000000).
+
+Theorem equinox_frame_refuted : ~ equinox_frame_full.
+Proof.
+  intros H. specialize (H 3 (-13) 1 0 0 ltac:(lra) ltac:(lra) ltac:(lra)).
+  apply Rle_not_lt in H. apply H. clear H.
+  unfold dist2, img, rot_x, rot_y, rot_z, rad. rewrite !zeta_c_eq, !z_c_eq, !theta_c_eq.
+  interval with (i_prec 80).
+Qed.
+
